@@ -1,9 +1,4 @@
-import os
 from specs import KEYS, CHECKS, unit
-
-# development knob: VERIF_ASSUME_KNOWN=pool-double-close-runner ./check C14 runs as if the lead had
-# already listed that finding key in known_findings.txt
-_dev_env = {'VERIF_KNOWN': os.environ['VERIF_ASSUME_KNOWN']} if os.environ.get('VERIF_ASSUME_KNOWN') else {}
 
 KEYS.setdefault('dispatchcloud_c14', {
     'pkg': 'lib/dispatchcloud',
@@ -14,11 +9,11 @@ KEYS['worker_c14'] = {'pkg': 'lib/dispatchcloud/worker'}
 _units = [
     unit('pool', 'worker_c14', '^TestVerifC14bPool$',
          {'shards': 4, 'checks': 400, 'steps': 40},
-         {'shards': 16, 'checks': 8000, 'steps': 60, 'timeout': 1500}, env=_dev_env),
+         {'shards': 16, 'checks': 8000, 'steps': 60, 'timeout': 1500}),
     unit('e2e', 'dispatchcloud_c14', '^TestVerifC14E2E$',
          {'shards': 10, 'timeout': 400, 'env': {'VERIF_SCENARIOS': 2, 'VERIF_MAXN': 120}},
          {'shards': 16, 'timeout': 1500, 'env': {'VERIF_SCENARIOS': 36, 'VERIF_MAXN': 500}},
-         rapid=False, env=_dev_env),
+         rapid=False, crash_is_violation=True),
 ]
 
 if 'C14' in CHECKS:
